@@ -501,3 +501,237 @@ Proof. apply ordered_prefix. apply pipeline_order. Qed.
 
 Theorem no_assertion_failure pf evs : c_crashed (prun pf evs conn0) = false.
 Proof. pose proof (prun_inv pf evs conn0 inv0) as H. apply H. Qed.
+
+(* ---------- the prefetch limit ---------- *)
+Lemma lenN_snoc {A} (l : list A) x : lenN (l ++ [x]) = lenN l + 1.
+Proof. rewrite lenN_app. cbn [lenN]. lia. Qed.
+
+Lemma parse_bound fuel pf c :
+  lenN (c_pipe c) <= pf + 1 -> lenN (c_pipe (parse_requests fuel pf c)) <= pf + 1.
+Proof.
+  revert c; induction fuel as [|f IH]; intros c H; cbn [parse_requests]; [assumption|].
+  destruct (c_inbuf c) as [|it rest]; [assumption|].
+  destruct (negb (c_bodyneed c =? 0) || negb (c_readmore c)); [assumption|].
+  unfold queue_filled. destruct (pf + 1 <=? lenN (c_pipe c)) eqn:Ef; [assumption|].
+  apply N.leb_gt in Ef.
+  destruct it as [r|n]; [|assumption].
+  destruct (rq_body r =? 0).
+  - apply IH. projs. rewrite lenN_snoc. lia.
+  - destruct (feed_body (rq_body r) rest) as [need rest'].
+    destruct (need =? 0); [apply IH|]; projs; rewrite lenN_snoc; lia.
+Qed.
+
+Lemma start_write_pipe ch c : c_pipe (start_write ch c) = c_pipe c.
+Proof. unfold start_write. destruct (c_writing c); reflexivity. Qed.
+
+Lemma kick_bound pf c : lenN (c_pipe c) <= pf + 1 -> lenN (c_pipe (kick pf c)) <= pf + 1.
+Proof.
+  intros H. unfold kick. destruct (negb (c_open c)); [assumption|].
+  pose proof (parse_bound (parse_fuel c) pf c H) as H1.
+  destruct (c_pipe (parse_requests (parse_fuel c) pf c)) as [|f p] eqn:Ep; [rewrite Ep; assumption|].
+  destruct (st_deferred f); [|rewrite Ep; assumption].
+  destruct (st_outsz f =? 0); [rewrite start_write_pipe, Ep; assumption| projs; rewrite Ep; assumption].
+Qed.
+
+Lemma pstep_bound pf e c : lenN (c_pipe c) <= pf + 1 -> lenN (c_pipe (pstep pf e c)) <= pf + 1.
+Proof.
+  intros H. destruct e as [items|i|]; cbn [pstep].
+  - unfold on_read. destruct (negb (c_open c)); [assumption|].
+    destruct (if c_bodyneed c =? 0 then _ else _) as [need inb']. apply parse_bound. assumption.
+  - unfold on_data. destruct (negb (c_open c)); [assumption|].
+    destruct (c_pipe c) as [|f tl0] eqn:Ep; [rewrite Ep; assumption|].
+    destruct (rq_id (st_req f) =? i).
+    + destruct (st_waiting f); [|rewrite Ep; assumption]. destruct (st_todo f); [rewrite Ep; assumption|].
+      rewrite start_write_pipe. projs. cbn [lenN] in *. assumption.
+    + destruct (pick i tl0) as [[[b s] a]|] eqn:Epk; [|rewrite Ep; assumption].
+      destruct (pick_spec _ _ _ _ _ Epk) as [-> _].
+      destruct (st_waiting s); [|rewrite Ep; assumption]. destruct (st_todo s); [rewrite Ep; assumption|].
+      destruct (st_deferred s); [projs; rewrite Ep; assumption|].
+      projs. cbn [lenN] in *. rewrite lenN_app in *. cbn [lenN] in *. assumption.
+  - unfold on_wrote. destruct (negb (c_open c)); [assumption|].
+    destruct (c_writing c); [|assumption].
+    destruct (c_pipe c) as [|f tl0] eqn:Ep; [projs; cbn [lenN]; lia|].
+    destruct (st_todo f).
+    + apply kick_bound. projs. cbn [lenN] in H. lia.
+    + projs. cbn [lenN] in *. assumption.
+Qed.
+
+Theorem prefetch_bound pf evs : lenN (c_pipe (prun pf evs conn0)) <= pf + 1.
+Proof.
+  assert (G : forall c, lenN (c_pipe c) <= pf + 1 -> lenN (c_pipe (prun pf evs c)) <= pf + 1).
+  { induction evs as [|e evs IH]; intros c H; cbn [prun fold_left]; [assumption|].
+    apply IH. apply pstep_bound. assumption. }
+  apply G. cbn. lia.
+Qed.
+
+(* ---------- progress and completion ---------- *)
+(* no internal event changes the state any more *)
+Definition stuck (pf : N) (c : conn) : Prop := on_wrote pf c = c /\ forall i, on_data i c = c.
+
+Lemma kick_done pf c : c_done (kick pf c) = c_done c.
+Proof.
+  unfold kick. destruct (negb (c_open c)); [reflexivity|].
+  destruct (parse_spec (parse_fuel c) pf c) as [rs X].
+  destruct X as (_ & _ & _ & _ & _ & Hd & _).
+  destruct (c_pipe (parse_requests (parse_fuel c) pf c)) as [|f p]; [assumption|].
+  destruct (st_deferred f); [|assumption].
+  destruct (st_outsz f =? 0); [|projs; assumption].
+  unfold start_write. destruct (c_writing _); projs; assumption.
+Qed.
+
+Lemma progress pf c :
+  Inv c -> c_open c = true -> c_pipe c <> [] ->
+  (forall s, In s (c_pipe c) -> rq_resp (st_req s) <> []) -> ~ stuck pf c.
+Proof.
+  intros (Icr & Isi & Itl & Itd & Ifr & Icl & Iseen & Ikl & Iko & Irm) Eo Hne Hresp [Hw Hd].
+  specialize (Ifr Eo). unfold front_ok in Ifr.
+  destruct (c_pipe c) as [|f tl0] eqn:Ep; [congruence|].
+  destruct Ifr as [(Hwt & Hwr & _) | (Hwt & t' & ch & _ & Hwr & _)].
+  - (* the front stream is waiting and has something to deliver *)
+    inversion Itd as [|? ? Htf _]; subst. specialize (Htf Hwt (Hresp f (or_introl eq_refl))).
+    specialize (Hd (rq_id (st_req f))). unfold on_data in Hd. rewrite Eo, Ep, N.eqb_refl, Hwt in Hd. cbn [negb] in Hd.
+    destruct (st_todo f) as [|c2 more]; [congruence|].
+    apply (f_equal c_writing) in Hd. unfold start_write in Hd. projs_in Hd. rewrite Hwr in Hd. projs_in Hd. congruence.
+  - (* a write is pending *)
+    unfold on_wrote in Hw. rewrite Eo, Hwr, Ep in Hw. cbn [negb] in Hw.
+    destruct (st_todo f).
+    + apply (f_equal c_done) in Hw. rewrite kick_done in Hw. projs_in Hw.
+      apply (f_equal (@length req)) in Hw. rewrite app_length in Hw. cbn [length] in Hw. lia.
+    + apply (f_equal c_writing) in Hw. projs_in Hw. congruence.
+Qed.
+
+(* saturation: with an empty pipeline and no request body outstanding, parseRequests never leaves a request head
+   at the start of inBuf *)
+Definition sat (c : conn) : Prop :=
+  c_open c = true -> c_pipe c = [] -> c_bodyneed c = 0 ->
+  match c_inbuf c with IHead _ :: _ => False | _ => True end.
+
+Lemma parse_sat fuel pf c :
+  c_readmore c = true -> sat (parse_requests (S fuel) pf c).
+Proof.
+  intros Hrm. destruct (parse_spec (S fuel) pf c) as [rs X].
+  destruct X as (Hp & _ & Ho & _). intros Eo Epipe Ebn.
+  revert Hp Epipe Ebn. cbn [parse_requests].
+  destruct (c_inbuf c) as [|it rest] eqn:Ein; [intros; rewrite Ein; exact I|].
+  destruct (c_bodyneed c =? 0) eqn:Eb; cbn [negb orb].
+  2:{ intros Hp Epipe Ebn. apply N.eqb_neq in Eb. congruence. }
+  rewrite Hrm. cbn [negb].
+  unfold queue_filled. destruct (pf + 1 <=? lenN (c_pipe c)) eqn:Ef.
+  { intros Hp Epipe Ebn. rewrite Epipe in Ef. cbn [lenN] in Ef. apply N.leb_le in Ef. lia. }
+  destruct it as [r|n]; [|intros; rewrite Ein; exact I].
+  (* a head was moved to the pipeline: the pipeline of the result is not empty *)
+  intros Hp Epipe Ebn. exfalso.
+  assert (Hne : forall c2 fu, c_pipe (parse_requests fu pf c2) = [] -> c_pipe c2 = []).
+  { intros c2 fu E. destruct (parse_spec fu pf c2) as [rs2 X2]. destruct X2 as (Hp2 & _). rewrite Hp2 in E.
+    apply app_eq_nil in E. apply E. }
+  destruct (rq_body r =? 0).
+  - apply Hne in Epipe. projs_in Epipe. apply app_eq_nil in Epipe. destruct Epipe; discriminate.
+  - destruct (feed_body (rq_body r) rest) as [need rest'].
+    destruct (need =? 0).
+    + apply Hne in Epipe. projs_in Epipe. apply app_eq_nil in Epipe. destruct Epipe; discriminate.
+    + projs_in Epipe. apply app_eq_nil in Epipe. destruct Epipe; discriminate.
+Qed.
+
+Lemma kick_sat pf c : c_readmore c = true -> sat (kick pf c).
+Proof.
+  intros Hrm. unfold kick. destruct (c_open c) eqn:Eo; cbn [negb].
+  - pose proof (parse_sat (length (c_inbuf c)) pf c Hrm) as Hs. fold (parse_fuel c) in Hs.
+    destruct (c_pipe (parse_requests (parse_fuel c) pf c)) as [|f p] eqn:Ep; [exact Hs|].
+    destruct (st_deferred f); [|exact Hs].
+    destruct (st_outsz f =? 0).
+    + intros _ E. rewrite start_write_pipe, Ep in E. discriminate.
+    + intros _ E. projs_in E. rewrite Ep in E. discriminate.
+  - intros E. congruence.
+Qed.
+
+Lemma pstep_sat pf e c : Inv c -> sat c -> sat (pstep pf e c).
+Proof.
+  intros HI Hs. assert (Hrm : c_readmore c = true) by apply HI.
+  destruct e as [items|i|]; cbn [pstep].
+  - unfold on_read. destruct (c_open c) eqn:Eo; cbn [negb].
+    + destruct (if c_bodyneed c =? 0 then _ else _) as [need inb']. apply parse_sat. exact Hrm.
+    + intros E. projs_in E. congruence.
+  - unfold on_data. destruct (negb (c_open c)); [assumption|].
+    destruct (c_pipe c) as [|f tl0] eqn:Ep; [assumption|].
+    destruct (rq_id (st_req f) =? i).
+    + destruct (st_waiting f); [|assumption]. destruct (st_todo f); [assumption|].
+      intros _ E. rewrite start_write_pipe in E. projs_in E. discriminate.
+    + destruct (pick i tl0) as [[[b s] a]|]; [|assumption].
+      destruct (st_waiting s); [|assumption]. destruct (st_todo s); [assumption|].
+      destruct (st_deferred s); intros _ E; projs_in E; [congruence| discriminate].
+  - unfold on_wrote. destruct (negb (c_open c)); [assumption|].
+    destruct (c_writing c); [|assumption].
+    destruct (c_pipe c) as [|f tl0] eqn:Ep.
+    + unfold sat in *. projs. rewrite Ep in Hs. exact Hs.
+    + destruct (st_todo f).
+      * apply kick_sat. projs. exact Hrm.
+      * intros _ E. projs_in E. discriminate.
+Qed.
+
+Lemma prun_sat pf evs c : Inv c -> sat c -> sat (prun pf evs c).
+Proof.
+  revert c; induction evs as [|e evs IH]; intros c HI Hs; cbn [prun fold_left]; [assumption|].
+  apply IH; [apply pstep_inv; assumption| apply pstep_sat; assumption].
+Qed.
+
+Lemma sat0 : sat conn0.
+Proof. intros _ _ _. exact I. Qed.
+
+(* when nothing is enabled any more, every request has received exactly its one complete response *)
+Theorem complete_when_quiescent pf evs :
+  let c := prun pf evs conn0 in
+  c_open c = true ->
+  (forall r, In r (reqs_of evs) -> rq_resp r <> []) ->
+  stuck pf c ->
+  c_bodyneed c = 0 -> (forall n rest, c_inbuf c <> IBody n :: rest) ->
+  c_out c = concat (map resp_bytes (reqs_of evs)) /\ c_pipe c = [] /\ c_done c = reqs_of evs.
+Proof.
+  intros c Eo Hresp Hstuck Hbn Hnb.
+  pose proof (prun_inv pf evs conn0 inv0) as HI. fold c in HI.
+  pose proof (prun_sat pf evs conn0 inv0 sat0) as Hs. fold c in Hs.
+  pose proof (prun_seen pf evs conn0) as Hseen. fold c in Hseen. cbn [c_seen conn0 app] in Hseen.
+  assert (Iseen : c_seen c = c_done c ++ map st_req (c_pipe c) ++ heads (c_inbuf c)) by apply HI.
+  assert (Hp : c_pipe c = []).
+  { destruct (c_pipe c) as [|f p] eqn:Ep; [reflexivity|]. exfalso.
+    apply (progress pf c HI Eo); [rewrite Ep; discriminate| |exact Hstuck].
+    intros s Hin. apply Hresp. rewrite <- Hseen, Iseen. apply in_or_app. right. apply in_or_app. left.
+    apply in_map. rewrite <- Ep. exact Hin. }
+  specialize (Hs Eo Hp Hbn).
+  assert (Hin : c_inbuf c = []).
+  { destruct (c_inbuf c) as [|[r|n] rest] eqn:Ein; [reflexivity| contradiction| exfalso; eapply Hnb; reflexivity]. }
+  destruct HI as (_ & _ & _ & _ & Ifr & _).
+  specialize (Ifr Eo). unfold front_ok in Ifr. rewrite Hp in Ifr. destruct Ifr as [_ Hout].
+  rewrite Hp, Hin in Iseen. cbn [map heads app] in Iseen. unfold heads in Iseen. cbn [flat_map] in Iseen.
+  rewrite !app_nil_r in Iseen.
+  split; [rewrite Hout; unfold done_bytes; congruence|]. split; [exact Hp| congruence].
+Qed.
+
+(* a closed connection: everything up to and including the first request that did not keep the connection alive
+   was answered completely, nothing else was written *)
+Theorem close_stops_after_response pf evs :
+  let c := prun pf evs conn0 in
+  c_open c = false ->
+  exists d r more,
+    reqs_of evs = d ++ r :: more /\
+    Forall (fun x => rq_keep x = true) d /\ rq_keep r = false /\
+    c_out c = concat (map resp_bytes (d ++ [r])).
+Proof.
+  intros c Eo.
+  pose proof (prun_inv pf evs conn0 inv0) as HI. fold c in HI.
+  pose proof (prun_seen pf evs conn0) as Hseen. fold c in Hseen. cbn [c_seen conn0 app] in Hseen.
+  destruct HI as (_ & _ & _ & _ & _ & Icl & Iseen & Ikl & _).
+  destruct (Icl Eo) as (_ & Hout & d & r & Hd & Hk).
+  exists d, r, (map st_req (c_pipe c) ++ heads (c_inbuf c)).
+  rewrite Hd, removelast_snoc in Ikl.
+  split; [rewrite <- Hseen, Iseen, Hd, <- app_assoc; reflexivity|].
+  split; [assumption|]. split; [assumption|]. rewrite Hout. unfold done_bytes. rewrite Hd. reflexivity.
+Qed.
+
+(* non-vacuity: a pipeline that completes out of order upstream *)
+Definition ex_r1 := mkReq 1 0 true [[1;1];[1]].
+Definition ex_r2 := mkReq 2 0 true [[2]].
+Definition ex_evs := [ERead [IHead ex_r1; IHead ex_r2]; EData 2; EData 1; EWrote; EData 1; EWrote; EWrote].
+Lemma ex_out : c_out (prun 1 ex_evs conn0) = [1;1;1;2] /\ c_pipe (prun 1 ex_evs conn0) = [].
+Proof. split; reflexivity. Qed.
+Lemma ex_stuck : stuck 1 (prun 1 ex_evs conn0).
+Proof. split; [reflexivity| intros i; reflexivity]. Qed.
